@@ -104,6 +104,11 @@ uint64_t cmb_datasummary_merge(struct cmb_datasummary *tgt,
     cs.count = dsp1->count + dsp2->count;
     cs.min = (dsp1->min < dsp2->min) ? dsp1->min : dsp2->min;
     cs.max = (dsp1->max > dsp2->max) ? dsp1->max : dsp2->max;
+    if (cs.count == 0u) {
+        /* Both empty, the result is an empty summary (avoid dividing 0 / 0) */
+        *tgt = cs;
+        return 0u;
+    }
 
     const double n1 = (double)dsp1->count;
     const double n2 = (double)dsp2->count;
